@@ -71,6 +71,7 @@ def run(rep, tier):
         nomove(rep, c, sfx)
         scratch(rep, c, sfx)
         boundary(rep, c, sfx)
+        advance(rep, c, sfx)
         if cfg != "nomemchr":
             skiparms(rep, c, sfx)
         else:
@@ -788,6 +789,52 @@ def boundary(rep, c, sfx):
                 if src is None:
                     r.violation(key, where(n), "offset `%s` passed to %s does not come from an existing "
                                 "position/span/token: it may not be a UTF-8 boundary" % (hirq.expr_text(a), b["path"]))
+
+
+def advance(rep, c, sfx):
+    r = rep.rule("C03.ADVANCE" + sfx, 8,
+                 "the cursor of a Position never moves by a constant number of bytes: every write to `pos` adds or assigns a "
+                 "computed width (len_utf8 of the matched character, the length of the matched string, an offset found by a "
+                 "search) - a literal step is a byte step and lands inside a multi-byte character unless an ASCII test "
+                 "dominates it")
+    n = 0
+    for b in c.bodies:
+        if b.get("impl_self") != POSITION or b.get("body") is None or b.get("exp"):
+            continue
+        ctx = hirq.Ctx(b)
+        for x in walk(b["body"]):
+            if kind(x) not in ("Assign", "AssignOp"):
+                continue
+            tgt = peel(x["l"])
+            if not (kind(tgt) == "Field" and tgt["name"] == "pos" and "Position" in tgt.get("bty", "")):
+                continue
+            n += 1
+            key = "%s:%s" % (b["name"], kind(x))
+            r.instance(key, where(x), hirq.expr_text(x["r"])[:40])
+            rhs = peel(x["r"])
+            lit = None
+            if kind(rhs) == "Lit" and isinstance(hirq.lit_value(rhs), int) and kind(x) == "AssignOp":
+                lit = hirq.lit_value(rhs)
+            if kind(rhs) == "Binary" and rhs["op"] in ("+", "-") and kind(x) == "Assign":
+                for side in (rhs["l"], rhs["r"]):
+                    if kind(peel(side)) == "Lit" and isinstance(hirq.lit_value(peel(side)), int) and hirq.lit_value(peel(side)) != 0:
+                        lit = hirq.lit_value(peel(side))
+            if lit is None or lit == 0:
+                continue
+            ascii_ok = False
+            for g in ctx.guards(x):
+                if g[0] in ("if", "guard") and (g[0] == "guard" or g[2] is True):
+                    txt = " ".join(str(y.get("m", "")) + " " + str(callee(y) or "") for y in walk(g[1]) if kind(y) in ("MethodCall", "Call"))
+                    if "is_ascii" in txt:
+                        ascii_ok = True
+                    cnd = peel(g[1])
+                    if kind(cnd) == "Binary" and cnd["op"] in ("<", "<=") and hirq.lit_value(peel(cnd["r"])) in (0x7F, 0x80, 127, 128):
+                        ascii_ok = True
+            if not ascii_ok:
+                r.violation(key, where(x), "Position::%s moves the cursor by the constant %s: on a multi-byte character this "
+                            "stops inside it (token positions off UTF-8 boundaries; as_str / spans panic)" % (b["name"], lit))
+    if n == 0:
+        r.lost("writes to Position.pos")
 
 
 TOKEN_POS_GETTERS = set()
